@@ -10,6 +10,8 @@ import (
 	"verif/sim/ref"
 )
 
+var sidInBody = regexp.MustCompile(`\\?"sid\\?":\\?"([^"\\]+)`)
+
 func init() {
 	sessionOracles = append(sessionOracles, oracleC16, oracleC17)
 }
@@ -280,11 +282,9 @@ func oracleC17(f *sessionFam, w *World, res *Result) []Violation {
 					if w.SockIDs[r.Client] == "" {
 						// the session was never announced (closed while the handshake was still running, e.g. by a
 						// shutdown in that instant): the harness does not know its id - take it from the open packet
-						if i := strings.Index(string(r.Body), `"sid":"`); i >= 0 {
-							rest := string(r.Body)[i+7:]
-							if j := strings.Index(rest, `"`); j >= 0 {
-								want = name + "=" + rest[:j]
-							}
+						// (a JSONP answer carries it inside a quoted string: \"sid\":\"...\")
+						if m := sidInBody.FindSubmatch(r.Body); m != nil {
+							want = name + "=" + string(m[1])
 						}
 					}
 					if !strings.HasPrefix(sc[0], want+";") && sc[0] != want {
